@@ -16,6 +16,27 @@ CHECK_DEADLOCK FALSE
 """
 
 
+def _leftmost_k(p, e):
+    x = p['exprs'][e - 1]
+    if x['kind'] in ('T', 'D', 'I'):
+        return x['k']
+    for a in x['args']:
+        k = _leftmost_k(p, a)
+        if k:
+            return k
+    return 0
+
+
+def expected_directive(p, op, key):
+    """The directive options the program places in the loop identified by the first tracer of its test / iterable."""
+    for d in p['nodes']:
+        if d['kind'] == ('while' if op == 'while_stmt' else 'for') and d['e'] and _leftmost_k(p, d['e']) == key:
+            if d['body'] and p['nodes'][d['body'][0] - 1]['kind'] == 'directive':
+                return {'maximum_iterations': p['nodes'][d['body'][0] - 1]['k']}
+            return {}
+    return None
+
+
 def run(rep):
     tier = rep.tier
     progs, tlcs = mpmon.program_set(tier, common.seed(), loop_else=False)
@@ -42,6 +63,17 @@ def run(rep):
     for c in calls:
         byop[c['op']] = byop.get(c['op'], 0) + c['count']
     rep.set('invocations_by_operator', byop)
+    # directive clause: the options of a loop carry exactly the directives the user placed in that loop
+    nopts = 0
+    for c in calls:
+        if c['op'] in ('while_stmt', 'for_stmt') and c.get('key', 0) > 0:
+            exp = expected_directive(progs[c['pid'] - 1], c['op'], c['key'])
+            if exp is not None:
+                nopts += 1
+                got = {k: v for k, v in c['opts'].items() if k != 'iterate_names'}
+                c['opts_ok'] = 1 if got == exp else 0
+                c['opts_expected'] = exp
+    rep.set('loop_option_sets_compared', nopts)
     wd = common.scratch('c03_%d' % os.getpid())
     tf = os.path.join(wd, 'calls.json')
     slim = [{k: c[k] for k in ('op', 'n', 'nouts', 'ngetter', 'events', 'ngetter_params', 'nsetter_params', 'nbody',
